@@ -1,8 +1,8 @@
 _EXEC = dict(
     name="host-execution + consecutive-run reports", harness="c12",
     make=["build/bin/c12", "build/gen/x86_forms.txt", "build/gen/c12_x86_extra.txt", "build/gen/a64_lists.txt"],
-    quick=dict(cases=16000, max_size=100, workers=16, extra_args=["--reps=8", "--states=16", "--encreps=1", "--encstates=3"]),
-    thorough=dict(cases=160000, max_size=100, workers=16, extra_args=["--reps=80", "--states=48", "--encreps=8", "--encstates=12"], timeout=7200),
+    quick=dict(cases=40000, max_size=100, workers=16, extra_args=["--reps=16", "--states=16", "--encreps=2", "--encstates=3"]),
+    thorough=dict(cases=640000, max_size=100, workers=16, extra_args=["--reps=240", "--states=48", "--encreps=24", "--encstates=12"], timeout=7200),
 )
 _TABLEGEN = dict(
     name="tables vs ISA database (tablegen regeneration diff)", harness="c12", runner="custom", module="c12_tablegen", replay_match=r"tablegen-diff",
